@@ -349,7 +349,7 @@ class ViewTranslator:
             L.append('    ::std::printf("B%d");  out(-1); out(v.Ok() ? 1 : 0); dump_T%d(v); ::std::printf("\\n");' % (bi, top_index))
             if probes:
                 L.append('    ::std::printf("Q%d");' % bi + " ".join(
-                    '{ auto f = v.%s(); if (f.Ok()) outv(f.Read()); else ::std::printf(" x"); }' % nm for nm in probes)
+                    '{ outm(v.has_%s()); auto f = v.%s(); if (f.Ok()) outv(f.Read()); else ::std::printf(" x"); }' % (nm, nm) for nm in probes)
                     + ' ::std::printf("\\n");')
             L.append('    ::std::free(buf); }')
         L.append("  return 0; }")
